@@ -125,10 +125,12 @@ PSY_INTERNAL:
     PSY_GRANT_INTERNAL_ACCESS(TypeChecker);
     PSY_GRANT_INTERNAL_ACCESS(Symbol);
     PSY_GRANT_INTERNAL_ACCESS(Compilation);
+    PSY_GRANT_INTERNAL_ACCESS(Disambiguator);
     PSY_GRANT_INTERNAL_ACCESS(InternalsTestSuite);
     PSY_GRANT_INTERNAL_ACCESS(SyntaxWriterDOTFormat); // TODO: Remove this grant.
 
     MemoryPool* unitPool() const;
+    void resetRootNode(SyntaxNode* node) const;
 
     using TokenSequenceType = std::vector<SyntaxToken>;
     using LineColum = std::pair<unsigned int, unsigned int>;
